@@ -207,8 +207,9 @@ func (ex *explorer) report(kind, key, text string, c Config, id int) {
 }
 
 type succ struct {
-	c Config
-	w int
+	c   Config
+	w   int
+	evs []string // events emitted on the way (name@offset relative to the cursor of the byte that was fed)
 }
 
 // apply runs state fn on byte b from configuration c (fn may differ from c.St when
@@ -237,7 +238,11 @@ func (ex *explorer) apply(c Config, id int, fn string, b int, depth int, wAcc in
 		open, d, e := c.Open, int(c.D), int(c.E)
 		phase := c.Phase
 		bad := false
+		var evs []string
 		for _, ef := range o.Effs {
+			if ef.K == EFound {
+				evs = append(evs, fmt.Sprintf("%s@%d", ef.Ev, ef.Off))
+			}
 			switch ef.K {
 			case ESetStep:
 				stepVar = ef.Fn
@@ -331,7 +336,10 @@ func (ex *explorer) apply(c Config, id int, fn string, b int, depth int, wAcc in
 			nc.D, nc.E = clipD(d), clip(e)
 			nc.Replay = c.Replay
 			nc.Prev = c.Prev
-			out = append(out, ex.apply(nc, id, stepVar, b, depth+1, wAcc)...)
+			for _, sub := range ex.apply(nc, id, stepVar, b, depth+1, wAcc) {
+				sub.evs = append(append([]string(nil), evs...), sub.evs...)
+				out = append(out, sub)
+			}
 			continue
 		}
 		if b == 0 && w >= 1 && !ex.nulOrd {
@@ -366,7 +374,7 @@ func (ex *explorer) apply(c Config, id int, fn string, b int, depth int, wAcc in
 					for pb := range preds {
 						n2 := nc
 						n2.Replay = string([]byte{ex.rep[pb], byte(b)})
-						out = append(out, succ{n2, w + wAcc})
+						out = append(out, succ{n2, w + wAcc, evs})
 					}
 					continue
 				}
@@ -378,7 +386,7 @@ func (ex *explorer) apply(c Config, id int, fn string, b int, depth int, wAcc in
 		} else if len(c.Replay) > 0 {
 			nc.Replay = c.Replay[1:]
 		}
-		out = append(out, succ{nc, w + wAcc})
+		out = append(out, succ{nc, w + wAcc, evs})
 	}
 	return out
 }
@@ -774,4 +782,260 @@ func (a *Analysis) Feed(c Config, bs []byte) []Config {
 		cur = next
 	}
 	return cur
+}
+
+// ---------- CRLF as one line end ----------
+
+// LineEndDivergence describes a reachable configuration in which the byte pair CR LF does not behave like LF alone.
+type LineEndDivergence struct {
+	State, Stack, Open string
+	LF, CRLF           string
+	Trace              string
+}
+
+// behaviour renders what a set of configurations can do on every byte sequence of length <= depth: the events emitted
+// (with their offsets), whether an error is possible, and -- at the horizon -- nothing more. Replayed bytes are fed
+// before the chosen ones, as the scanner would.
+func (ex *explorer) behaviour(set []Config, depth int, shift int) string {
+	if depth == 0 || len(set) == 0 {
+		return ""
+	}
+	var parts []string
+	for _, bb := range ex.reps {
+		evSet := map[string]bool{}
+		var next []Config
+		seen := map[Config]bool{}
+		for _, c := range set {
+			cs := []Config{c}
+			// drain replays first (they re-read known bytes and are not a choice)
+			for guard := 0; guard < 4; guard++ {
+				var drained []Config
+				again := false
+				for _, x := range cs {
+					if len(x.Replay) > 0 {
+						again = true
+						for _, s := range ex.apply(x, 0, x.St, int(x.Replay[0]), 0, 0) {
+							drained = append(drained, s.c)
+						}
+					} else {
+						drained = append(drained, x)
+					}
+				}
+				cs = drained
+				if !again {
+					break
+				}
+			}
+			for _, x := range cs {
+				row := ex.m.Trans[x.St]
+				for _, o := range row[int(bb)] {
+					if o.Term == TErr && guardsHold(o.Guards, x.Prev) {
+						evSet["ERR"] = true
+					}
+				}
+				for _, s := range ex.apply(x, 0, x.St, int(bb), 0, 0) {
+					evSet[strings.Join(dropTextBegin(s.evs), " ")] = true
+					n := s.c
+					n.D, n.E, n.Trunc = 0, 0, false
+					if !seen[n] {
+						seen[n] = true
+						next = append(next, s.c)
+					}
+				}
+			}
+		}
+		var evs []string
+		for e := range evSet {
+			evs = append(evs, e)
+		}
+		sort.Strings(evs)
+		tail := ex.behaviour(next, depth-1, shift)
+		if depth == 1 {
+			// at the horizon: which lexeme is open
+			opens := map[string]bool{}
+			for _, n := range next {
+				opens[n.Open] = true
+			}
+			var os []string
+			for o := range opens {
+				os = append(os, "open="+o)
+			}
+			sort.Strings(os)
+			tail = strings.Join(os, ",")
+		}
+		parts = append(parts, fmt.Sprintf("%q:{%s}[%s]", bb, strings.Join(evs, "|"), tail))
+	}
+	return strings.Join(parts, ";")
+}
+
+// dropTextBegin: where the free text of a Description begins is compared through the lexeme that is open at the
+// horizon, not through the place of the TextBegin event: after "Description CR LF" the text lexeme begins at the LF,
+// after "Description LF" at the byte after it; core.description trims leading line breaks (checked by C08-NORMALISERS).
+func dropTextBegin(evs []string) []string {
+	var o []string
+	for _, e := range evs {
+		if !strings.HasPrefix(e, "TextBegin@") {
+			o = append(o, e)
+		}
+	}
+	return o
+}
+
+// LineEndDivergences compares, for every explored configuration that reads fresh input, the byte LF with the pair
+// CR LF: the events emitted while the line end is read (positions counted from the first byte of the line end) and
+// the behaviour on the next `lookahead` bytes must be the same.
+func (a *Analysis) LineEndDivergences(lookahead int) []LineEndDivergence {
+	ex := a.ex
+	saveFinds := ex.finds
+	ex.finds = map[string]Finding{} // the probes below must not add findings
+	defer func() { ex.finds = saveFinds }()
+	var out []LineEndDivergence
+	seenKey := map[string]bool{}
+	memo := map[string]string{}
+	beh := func(set []Config) string {
+		var ks []string
+		for _, c := range set {
+			c.D, c.E, c.Trunc = 0, 0, false
+			ks = append(ks, fmt.Sprintf("%v", c))
+		}
+		sort.Strings(ks)
+		k := strings.Join(ks, "#")
+		if v, ok := memo[k]; ok {
+			return v
+		}
+		v := ex.behaviour(set, lookahead, 0)
+		memo[k] = v
+		return v
+	}
+	shiftEvs := func(evs []string, by int) string {
+		var o []string
+		for _, e := range dropTextBegin(evs) {
+			i := strings.LastIndexByte(e, '@')
+			var off int
+			fmt.Sscanf(e[i+1:], "%d", &off)
+			o = append(o, fmt.Sprintf("%s@%d", e[:i], off+by))
+		}
+		return strings.Join(o, " ")
+	}
+	for id, c := range ex.order {
+		if len(c.Replay) > 0 {
+			continue
+		}
+		key := fmt.Sprintf("%s|%s|%s|%d", c.St, c.Stack, c.Open, c.Phase)
+		if seenKey[key] {
+			continue
+		}
+		seenKey[key] = true
+		// LF alone
+		lf := map[string][]Config{}
+		for _, s := range ex.apply(c, id, c.St, '\n', 0, 0) {
+			k := shiftEvs(s.evs, 0)
+			lf[k] = append(lf[k], s.c)
+		}
+		// CR then LF (events of the second step lie one byte further)
+		crlf := map[string][]Config{}
+		for _, s1 := range ex.apply(c, id, c.St, '\r', 0, 0) {
+			mids := []Config{s1.c}
+			// a rewound CR is read again before the LF
+			for guard := 0; guard < 4 && len(mids) > 0 && len(mids[0].Replay) > 0; guard++ {
+				var nx []Config
+				for _, mc := range mids {
+					if len(mc.Replay) == 0 {
+						nx = append(nx, mc)
+						continue
+					}
+					for _, s := range ex.apply(mc, id, mc.St, int(mc.Replay[0]), 0, 0) {
+						nx = append(nx, s.c)
+					}
+				}
+				mids = nx
+			}
+			for _, mc := range mids {
+				for _, s2 := range ex.apply(mc, id, mc.St, '\n', 0, 0) {
+					k := strings.TrimSpace(shiftEvs(s1.evs, 0) + " " + shiftEvs(s2.evs, 1))
+					crlf[k] = append(crlf[k], s2.c)
+				}
+			}
+		}
+		render := func(m map[string][]Config) string {
+			var ks []string
+			for k, set := range m {
+				ks = append(ks, "{"+k+"}=>"+beh(set))
+			}
+			sort.Strings(ks)
+			return strings.Join(ks, " || ")
+		}
+		l, r := render(lf), render(crlf)
+		if l != r {
+			out = append(out, LineEndDivergence{State: c.St, Stack: c.Stack, Open: c.Open, LF: l, CRLF: r, Trace: ex.trace(id)})
+		}
+	}
+	return out
+}
+
+// ---------- end of input with a lexeme open ----------
+
+// EOFOpen describes a reachable configuration in which the end of the input is consumed while a lexeme is still open
+// (its Begin was emitted, its End never is) without an error.
+type EOFOpen struct {
+	State, Stack, Open, Trace string
+}
+
+// EOFLeavesOpen feeds the end-of-input byte to every explored configuration that has a lexeme open and follows the
+// re-feeds (pops, rewinds) until the byte is consumed or an error is returned.
+func (a *Analysis) EOFLeavesOpen() []EOFOpen {
+	ex := a.ex
+	saveFinds, saveNul := ex.finds, ex.nulOrd
+	ex.finds, ex.nulOrd = map[string]Finding{}, true
+	defer func() { ex.finds, ex.nulOrd = saveFinds, saveNul }()
+	var out []EOFOpen
+	seenKey := map[string]bool{}
+	for id, c := range ex.order {
+		if c.Open == "" || len(c.Replay) > 0 {
+			continue
+		}
+		key := fmt.Sprintf("%s|%s|%s", c.St, c.Stack, c.Open)
+		if seenKey[key] {
+			continue
+		}
+		seenKey[key] = true
+		// closed: the End of the lexeme that was open has been emitted on the way (a lexeme that the end of the input
+		// itself opens afterwards, e.g. a body handed to the opaque schema reader, is not this rule's business)
+		type item struct {
+			c      Config
+			closed bool
+		}
+		front := []item{{c, false}}
+		bad := false
+		for round := 0; round < 6 && len(front) > 0 && !bad; round++ {
+			var next []item
+			for _, x := range front {
+				for _, s := range ex.apply(x.c, id, x.c.St, 0, 0, 0) {
+					closed := x.closed
+					for _, e := range s.evs {
+						if i := strings.LastIndexByte(e, '@'); i > 0 && ex.m.EventKinds[e[:i]] == "end:"+c.Open {
+							closed = true
+						}
+					}
+					if s.w >= 1 {
+						if !closed {
+							bad = true
+							if debug {
+								fmt.Fprintf(os.Stderr, "EOF-open: from %+v via %+v -> %+v w=%d evs=%v\n", c, x, s.c, s.w, s.evs)
+							}
+						}
+						continue
+					}
+					n := s.c
+					n.Replay = ""
+					next = append(next, item{n, closed})
+				}
+			}
+			front = next
+		}
+		if bad {
+			out = append(out, EOFOpen{State: c.St, Stack: c.Stack, Open: c.Open, Trace: ex.trace(id)})
+		}
+	}
+	return out
 }
